@@ -209,6 +209,22 @@ pub fn large(groups: &mut Vec<Group>) {
     m.push_def(def("LExt7", Type::CharString { cs: Charset::Printable, size: Size::Fixed(Bound::Lit(5), true) }));
     m.push_def(def("LExt8", Type::CharString { cs: Charset::Visible, size: ext_small(0, 65535) }));
     m.push_def(def("LExt9", Type::CharString { cs: Charset::Utf8, size: ext_small(1, 8) }));
+    // the 64K threshold itself (X.691 11.9.3.3/16.10/17.5..: "less than 64K"): fixed sizes and upper bounds of exactly
+    // 65535, 65536 and 65537 - a fixed size of 65536 needs the fragmented length form, one of 65535 needs none
+    let fixed = |n: u64, ext: bool| Size::Fixed(Bound::Lit(n as i128), ext);
+    for (i, n) in [65535u64, 65536, 65537].iter().enumerate() {
+        m.push_def(def(&format!("LFixBit{}", i + 1), Type::BitString { size: fixed(*n, false), named: vec![] }));
+        m.push_def(def(&format!("LFixOct{}", i + 1), Type::OctetString { size: fixed(*n, false) }));
+        m.push_def(def(&format!("LFixList{}", i + 1), Type::SequenceOf { elem: Box::new(Type::Boolean), size: fixed(*n, false) }));
+        m.push_def(def(&format!("LFixStr{}", i + 1), Type::CharString { cs: Charset::Ia5, size: fixed(*n, false) }));
+    }
+    m.push_def(def("LFixBitExt", Type::BitString { size: fixed(65536, true), named: vec![] }));
+    m.push_def(def("LFixOctExt", Type::OctetString { size: fixed(65536, true) }));
+    m.push_def(def("LRngBit1", Type::BitString { size: size_range(0, 65535), named: vec![] }));
+    m.push_def(def("LRngBit2", Type::BitString { size: size_range(0, 65536), named: vec![] }));
+    m.push_def(def("LRngOct1", Type::OctetString { size: size_range(65535, 65536) }));
+    m.push_def(def("LRngList1", Type::SequenceOf { elem: Box::new(Type::Boolean), size: size_range(65534, 65535) }));
+    m.push_def(def("LRngStr1", Type::CharString { cs: Charset::Numeric, size: size_range(65536, 65537) }));
     groups.push(Group::new("large", vec![m]));
 }
 
